@@ -151,9 +151,34 @@ def gen_case(rng, cid, t0):
 
 def known_slice(rng, cid, t0):
     """a fixed slice inside each recorded finding's region (so that a silent repair is noticed)"""
-    k = rng.choice(["nan", "nan0", "nan-cf2", "starve", "starve-frac", "stuck0"])
+    k = rng.choice(["nan", "nan0", "nan-cf2", "starve", "starve-frac", "stuck0", "stuck", "stuck", "late"])
     now = t0
     ops = [f"clock {now}"]
+    if k == "stuck":
+        # drain the bucket of T=10/period=10/cf=3 (warning 50, max 100) to exactly (or nearly) the warning line, idle, come back
+        ops.append(f"load wu {fb(10)} 10 3 0")
+        seq = [3, 3, 3, 3, 3, 4, 4, 3, 3, 3, 3, 3, 3, 3, 3, rng.choice([3, 3, 3, 2, 4])]
+        for q in seq:
+            ops.append(f"clock {now}")
+            ops.append(f"req {q} 1")
+            now += 1000
+        ops.append(f"clock {now}")
+        ops.append("req 1 1")
+        now += rng.choice([30000, 3600000, 11000])
+        for _ in range(rng.randint(1, 4)):
+            ops.append(f"clock {now}")
+            ops.append(f"req {rng.choice([20, 5, 11])} 1")
+            now += rng.choice([500, 1000, 2000])
+        return Case(cid, ops, tags=("known-slice", k)), now
+    if k == "late":
+        T, p, cf = rng.choice([(2, 3, 2), (3, 5, 3), (3, 30, 2), (4, 10, 0), (100, 10, 3), (20, 5, 4)])
+        now = now - now % 1000 + 1000
+        ops = [f"clock {now}", f"load wu {fb(T)} {p} {cf} 0"]
+        for _ in range(p + rng.randint(2, 2 * p + 6)):
+            ops.append(f"clock {now}")
+            ops.append(f"req {T + rng.choice([1, 3])} 1")
+            now += 1000
+        return Case(cid, ops, tags=("known-slice", k)), now
     if k == "nan":
         ops.append(f"load wu {fb(1)} 1 {rng.choice([0, 3, 4])} 0")
     elif k == "nan0":
